@@ -140,7 +140,15 @@ class Run:
         cut = rng.choice([1, 3, 4, 5, 13, 14, len(frame) - 1, rng.randint(1, len(frame) - 1)])
         cut = max(1, min(cut, len(frame) - 1))
         self.hist.append(f"partial frame ({cut} of {len(frame)} bytes)")
-        self.rig.pipe.feed(frame[:cut])
+        if rng.random() < 0.5:
+            # in the same segment as a complete message (the partial frame sits behind consumed bytes in the receive buffer)
+            system = next(self.sysgen)
+            self.hist[-1] += f" behind a complete Linktest.req({system:#x}) in one segment"
+            self.rig.pipe.feed(wire.hsms_control(wire.LINKTEST_REQ, system) + frame[:cut])
+            self.injected_connected += 1
+            self.rig.wait(lambda: any(f.system == system for f in self.peek_frames()), 3.0)
+        else:
+            self.rig.pipe.feed(frame[:cut])
         self.rig.quiesce(0.5)
         self.ctx.count("link_lost_inside_a_frame")
 
@@ -213,6 +221,30 @@ class Run:
         elif stype == wire.DESELECT_REQ:
             self.model = {NS}
         self.check_state(wire.STYPE_NAMES[stype])
+
+    def ev_burst(self):
+        """Hundreds of requests in one segment: each is answered, in order, and the endpoint keeps working."""
+        n = self.ctx.rng.choice([300, 600, 1100])
+        base = 0x66000000 + self.ctx.rng.randrange(1 << 12) * 4096
+        self.hist.append(f"burst of {n} Linktest.req in one segment")
+        self.rig.pipe.feed(b"".join(wire.hsms_control(wire.LINKTEST_REQ, base + i) for i in range(n)))
+        self.injected_connected += n
+        want = [base + i for i in range(n)]
+
+        def done():
+            return sum(1 for f in self.peek_frames() if f.stype == wire.LINKTEST_RSP and base <= f.system < base + n) >= n
+        if not self.rig.wait(done, 20.0, min_idle=1.0):
+            self.rig.confirm_absent(done)
+        frames = self.new_frames()
+        got = [f.system for f in frames if f.stype == wire.LINKTEST_RSP and base <= f.system < base + n]
+        self.ctx.count("oracle.control_request_answered", n)
+        self.ctx.count("oracle.bursts")
+        if got != want:
+            self.violation("burst-of-linktest-requests-not-answered-one-by-one-in-order", sent=n, answered=len(got),
+                           first_difference=next((i for i, (a, b) in enumerate(zip(got, want)) if a != b), min(len(got), len(want))),
+                           stacks=stuck.stacks(5) if len(got) < n else None)
+            return
+        self.check_state("burst")
 
     def ev_separate(self):
         system = next(self.sysgen)
@@ -425,8 +457,10 @@ def _history(ctx, active, length):
             run.ev_open_request()
         elif r < 0.68:
             run.ev_reply_to_open_request()
-        elif r < 0.94:
+        elif r < 0.93:
             run.ev_data(rng.choice(["header_only", "header_only", "uncatalogued", "undecodable"]), rng.random() < 0.5)
+        elif r < 0.955:
+            run.ev_burst()
         else:
             run.ev_linktest_timer(True)
     ctx.case(("hist", active, tuple(h.split("(")[0] for h in run.hist)), nontrivial=run.injected_connected > 0)
